@@ -142,6 +142,13 @@ def check_apply(ctx, fi, it, case, out, node, sos, sig_in, noise_in, real_part):
         pl = kw.get("padlen")
         pla = pl.single_atom() if isinstance(pl, Form) else None
         ok_pad = bool(pla and pla[0] == "fn" and pla[1] in ("min", "minimum") and any(isinstance(x_, Form) and any(at[0] == "fn" and at[1] in ("siglen", "size", "len") or (at[0] == "sym" and at[1].endswith((".size", ".shape"))) or (at[0] == "attr" and at[2] in ("size", "shape")) for at in x_.atoms()) for x_ in pla[2]))
+        if ok_pad and fi.name == "BPF":
+            # BPF filters (2, N) two-polarisation arrays along the last axis: the record length is N, `.size` counts both rows (2N) and
+            # leaves the cap too loose - orders 5..8 then reject two-polarisation records of 17..27 samples again
+            whole = [at for x_ in pla[2] if isinstance(x_, Form) for at in x_.atoms() if (at[0] == "sym" and at[1].endswith(".size")) or (at[0] == "attr" and at[2] == "size")]
+            ctx.check("C11.2", not whole, fi, node, f"{fi.name} [{case}] {fld}: edge padding capped by the length along the filtered axis", "len() / shape[-1], not the element count of both rows",
+                      f"the padding is capped by {repr(Form.atom(whole[0])) if whole else ''} - 1: for a two-polarisation (2, N) field that is 2N - 1, not N - 1, so sosfiltfilt is again asked for more padding than a "
+                      "17..27-sample record has (ValueError for orders 5..8) while each polarisation alone filters fine")
         ctx.check("C11.2", ok_pad, fi, node, f"{fi.name} [{case}] {fld}: edge padding padlen={pl!r}"[:200], "min(default, record length - 1)",
                   "sosfiltfilt runs with its default edge padding 3*(2*sections+1): 18..27 samples for orders 5..8, so inputs of 17..27 samples - longer than the 16-sample padding the statement "
                   "speaks of - are rejected with ValueError instead of being filtered")
